@@ -91,6 +91,15 @@ def build(cls, fields):
 
 def snap(o, depth=0):
     """plain snapshot of an object state with the abstract `view` of buffers"""
+    if type(o).__name__ == "HTTPChannel" or (hasattr(o, "outbufs") and hasattr(o, "requests_lock")):
+        # light snapshot of a channel: only the plain fields the monitored clauses read (a deep walk would slow the functional tests)
+        req = getattr(o, "request", None)
+        return types.SimpleNamespace(
+            total_outbufs_len=getattr(o, "total_outbufs_len", 0), outbufs=[None] * len(getattr(o, "outbufs", ())),
+            requests=[None] * len(getattr(o, "requests", ())), sent_continue=getattr(o, "sent_continue", False),
+            close_when_flushed=getattr(o, "close_when_flushed", False), will_close=getattr(o, "will_close", False),
+            connected=getattr(o, "connected", False), sendbuf_len=getattr(o, "sendbuf_len", 1),
+            request=None if req is None else types.SimpleNamespace(completed=getattr(req, "completed", False)))
     if hasattr(o, "getvalue") and hasattr(o, "tell"):          # BytesIO standing for the model's io.File
         try:
             return types.SimpleNamespace(content=o.getvalue(), pos=o.tell(), closed=False)
